@@ -246,6 +246,23 @@ M: List[Tuple[str, str, str, str, str]] = [
     ('c17-local-mode-via-differs', 'C17', 'proxy/http/proxy/server.py',
      "                self.request.add_headers(\n                    [(b'Via', b'1.1 %s' % PROXY_AGENT_HEADER_VALUE)],\n                )",
      "                self.request.add_headers(\n                    [(b'Via', b'1.1 %s' % (PROXY_AGENT_HEADER_VALUE if self.flags.local_executor or not self.flags.threadless else b'proxy.py'))],\n                )"),
+    # ---- C11 ---------------------------------------------------------------
+    ('c11-cert-none-always', 'C11', 'proxy/http/proxy/server.py',
+     "                if self.flags.insecure_tls_interception\n                else ssl.VerifyMode.CERT_REQUIRED",
+     "                if self.flags.insecure_tls_interception or self.flags.ca_file\n                else ssl.VerifyMode.CERT_REQUIRED"),
+    ('c11-no-hostname-check', 'C11', 'proxy/core/connection/server.py',
+     "            False if verify_mode == ssl.VerifyMode.CERT_NONE else hostname is not None", "            False"),
+    ('c11-leaf-without-san', 'C11', 'proxy/http/proxy/server.py',
+     "        alt_subj_names = [text_(self.request.host)]", "        alt_subj_names = [text_(self.request.host)] if self.request.port != 443 else []"),
+    ('c11-verify-error-ignored', 'C11', 'proxy/http/proxy/server.py',
+     "                'ssl.SSLCertVerificationError: ' +\n                'Server raised cert verification error for upstream: {0}'.format(\n                    self.upstream.addr[0],\n                ),\n            )\n            do_close = True",
+     "                'ssl.SSLCertVerificationError: ' +\n                'Server raised cert verification error for upstream: {0}'.format(\n                    self.upstream.addr[0],\n                ),\n            )\n            do_close = self.flags.ca_file is None"),
+    ('c11-opt-out-ignored', 'C11', 'proxy/http/proxy/server.py',
+     "            do_intercept = plugin.do_intercept(self.request)\n", "            do_intercept = plugin.do_intercept(self.request) or do_intercept\n"),
+    ('c11-revert-want-write-fix', 'C11', 'proxy/http/handler.py',
+     "            except ssl.SSLWantWriteError:   # Try again later\n                logger.warning(\n                    'SSLWantWriteError while trying to flush to client, will retry',\n                )\n                return False\n", ""),
+    ('c11-cert-cache-by-first-label', 'C11', 'proxy/http/proxy/server.py',
+     "        return os.path.join(ca_cert_dir, '%s.pem' % host)", "        return os.path.join(ca_cert_dir, '%s.pem' % host.split('.')[-1])"),
 ]
 
 
